@@ -75,14 +75,15 @@ func C13() *engine.Check {
 	}
 	main := &engine.Sub{
 		Name: "like-vs-glob-language",
+		Repeat: true,
 		Rule: `every pattern x every string over {a,b,*,\} up to the length bound; pattern installed with policy.Like(".", p) and through policy.FromIPLD, evaluated with Policy.Match on the string; oracle = membership in the glob language by dynamic programming; non-trivial = string contains '*' or '\' or pattern contains an escape`,
-		Bound: func(t string) string { return fmt.Sprintf("patterns and strings of length <=%d over 4 symbols", tierN(t, 5, 6)) },
+		Bound: func(t string) string { return fmt.Sprintf("patterns and strings of length <=%d over 4 symbols", tierN(t, 5, 7)) },
 		Setup: func(tier string) error {
-			strs[tierN(tier, 5, 6)] = stringsOf(tierN(tier, 5, 6))
+			strs[tierN(tier, 5, 7)] = stringsOf(tierN(tier, 5, 7))
 			return nil
 		},
 		Gen: func(tier string, emit func(any) bool) {
-			n := tierN(tier, 5, 6)
+			n := tierN(tier, 5, 7)
 			allStrings(c13Alphabet, n, func(p string) bool { return emit(&c13Case{Pattern: p, MaxLen: n}) })
 		},
 		NewCase: func() any { return &c13Case{} },
